@@ -251,7 +251,7 @@ func (f *Frame) inlineCall(fn *ssa.Function, args []T, pos token.Pos) ([]T, bool
 		sub.con = &Contract{Func: name, Checks: f.con.Checks, Loops: map[int]*LoopSpec{}}
 	}
 	sub.held = f.held
-	sub.frameHook, sub.frameMapHook, sub.frameCallHook = f.frameHook, f.frameMapHook, f.frameCallHook
+	sub.frameHook, sub.frameMapHook, sub.frameCallHook, sub.frameAppendHook = f.frameHook, f.frameMapHook, f.frameCallHook, f.frameAppendHook
 	res, st, path, ok := sub.run(args, f.st, f.curPath())
 	if !ok {
 		return nil, false
@@ -568,7 +568,12 @@ func (f *Frame) doAppend(v ssa.Value, c *ssa.CallCommon, pos token.Pos) {
 	arr := f.p.sliceArray(et)
 	as := ArrSort(SInt, ArrSort(SInt, es))
 	inner := ArrSort(SInt, es)
-	f.enc.assumed["append modelled functionally: result uses a fresh backing array (aliasing via spare capacity not modelled)"] = true
+	f.enc.assumed["append modelled functionally: result uses a fresh backing array (in-place writes into spare capacity are covered by a frame obligation where `check frame` is claimed)"] = true
+	if f.frameAppendHook != nil {
+		if !isFreshRoot(c.Args[0], func(ssa.Instruction) bool { return true }) {
+			f.frameAppendHook(f, arr, s, pos)
+		}
+	}
 	H := f.stGet(arr, as)
 	addSrc := c.Args[1]
 	// constant-length vararg: slice of a fresh [N]T array
